@@ -654,6 +654,14 @@ TypeOK ==
     /\ active \subseteq Workers
     /\ \A w \in Workers : fast[w] \in Tasks \cup {None}
 
-(* terminal states, for behaviour export *)
+(* Liveness (C04/C08 "every stepping call returns", C19 "the drop returns"): under weak fairness of every thread - a
+   thread that can take a step eventually does; parking is a blocked step, not a step - the executor thread gets through
+   every run() of the scenario and through drop(executor). A lost unpark (somebody parks for ever while work or the
+   caller waits) or a search loop that never gives up is a behaviour that satisfies FairSpec and violates Terminates.
+   NoStrandedRun is the safety shadow of this property; this is the real thing, checked on the full state graph. *)
 Finished == mpc \in {"dropped"} \/ (~DropAfter /\ (mpc = "dead" \/ (mpc = "out" /\ ml.run = Len(Runs))))
+FairSpec == Spec /\ WF_vars(Main) /\ \A w \in Workers : WF_vars(Worker(w))
+Terminates == <>Finished
+
+(* terminal states, for behaviour export *)
 =============================================================================
